@@ -101,6 +101,45 @@ CLAIMED.update({
     ),
 })
 
+CLAIMED.update({
+    "C02": (
+        "property-based differential testing against a reference reading of external behaviour: generated valid tasks (mutation pairs, specifications, placeholders, clashing private names) x flags x interpretations guided by reference stable models; oracle = reference (stable on one side's vocabulary, private extents supported, not stable on the other) vs exact evaluation of every emitted problem",
+        "Exploration: an interpretation refutes an emitted forward/backward problem iff it witnesses a behavioural difference in that direction by the independent reference semantics; distinct source predicates must keep distinct names in the problems; valid tasks must be accepted and unrequested directions absent.",
+        "Trusted: reference semantics and stable-model computation, exact evaluator; tasks are stratified by construction; an output predicate mentioned nowhere in the task is treated as vacuous.",
+        "4/C02",
+    ),
+    "C10": (
+        "property-based fault injection through the real binary: generated tasks x generated prover plans (13 outcome kinds, delays, 0-8 instances, missing executable, prover that exits without reading) with a stand-in vampire that records its stdin; oracle = plan-derived expected verdict, exact multiset equality of handed-over and saved problem texts, per-problem status lines",
+        "Exploration: Success iff every planned outcome prints SZS status Theorem, every problem handed over exactly once byte-identical to the saved file, distinct names, status lines match the plan, exit status 0; half of the plans have zero or exactly one non-Theorem outcome at a generated position.",
+        "Trusted: the stand-in prover; completion orders are induced by delays and instance counts under the OS scheduler (the harness does not own the interleaving).",
+        "4/C10 and 7",
+    ),
+    "C13": (
+        "property-based testing of an ordering invariant and of induction obligations: generated valid tasks + generated outlines (definitions, lemmas, inductive lemmas, all directions) x flags; oracle = sequencing invariant over the emitted problem list, implication from emitted base/step to independently constructed base/step under random interpretations, refusal of single-defect definitions",
+        "Exploration: every axiom of every problem is justified (premise of the direction, accepted definition, earlier conclusion, or lemma all of whose establishing problems come earlier); emitted induction obligations imply the checker's own F[N:=n] and (N>=n & F -> F[N:=N+1]); each of 9 listed definition defects is refused.",
+        "Trusted: formula names identify outline entries (every generated entry is named); window-mode evaluation for the purely logical induction check.",
+        "4/C13",
+    ),
+    "C16": (
+        "mutation-based fuzzing with a crash oracle: accepted texts (repository examples, directed corner texts, generated programs/theories) under token-level mutations, through every front end and every later stage in-process under catch_unwind, sampled through the real binary; libFuzzer targets in the thorough tier",
+        "Exploration: no panic, abort or hang in any stage for texts of moderate size; non-zero exit implies a message on stderr; numerals beyond the integer types, huge arities, empty/comment-only files are directed cases.",
+        "Trusted: catch_unwind on 512 MB stacks (stack exhaustion is observable only through the binary; deep nesting is a recorded known finding).",
+        "4/C16",
+    ),
+    "C19": (
+        "metamorphic property-based testing: the same task under all 8 flag combinations x one interpretation; oracle = equality of the refutation verdict (exact evaluation) across combinations",
+        "Exploration: for external tasks (guided interpretations) and strong tasks over unrestricted random programs, the verdict 'some problem has all axioms true and its conjecture false' is identical under every combination of simplify/eq-break/decomposition whenever definite.",
+        "Trusted: exact evaluator; no reference semantics needed (metamorphic relation).",
+        "4/C19",
+    ),
+    "C20": (
+        "model-based testing through the real binary: generated file sets and argument permutations; oracle = reference model of role assignment vs numeral markers found among axioms/conjectures of the saved forward problems",
+        "Exploration: the specification/program/user-guide/proof-outline roles observed in the saved problems equal those predicted from extensions, argument order and byte-wise directory order, for strong and external equivalence; missing required files must fail.",
+        "Trusted: the directory-order model (depth-first, byte-wise names, hidden files included).",
+        "4/C20",
+    ),
+})
+
 NOT_YET = {}
 
 def main():
